@@ -213,6 +213,63 @@ def rule_optional_results(ctx, rep: Report, rid="Q2", min_sites=8):
         raise AnalysisError(f"{rep.prop}/{rid}: {n} optional-result sites, >= {min_sites} expected")
 
 
+def rule_element_truthiness(ctx, rep: Report, rid="Q2"):
+    """An xml.etree Element is falsy when it has no child elements, so presence of an optional
+    element must be tested with `is (not) None`, never by truth value."""
+    prog = ctx.prog
+    ci = prog.cls("XMLDocParser")
+    n = 0
+    for mname, fn in sorted(ci.methods.items()):
+        elem_locals = set()
+        for name, sts in local_assignments(fn).items():
+            for st in sts:
+                if isinstance(st, ast.Assign) and isinstance(st.value, ast.Call) and isinstance(st.value.func, ast.Attribute) \
+                        and st.value.func.attr == "find":
+                    elem_locals.add(name)
+                if isinstance(st, ast.Assign) and isinstance(st.value, ast.IfExp) and isinstance(st.value.body, ast.Call) \
+                        and isinstance(st.value.body.func, ast.Attribute) and st.value.body.func.attr == "find":
+                    elem_locals.add(name)
+
+        def is_elem(e) -> bool:
+            return (isinstance(e, ast.Call) and isinstance(e.func, ast.Attribute) and e.func.attr == "find") or \
+                (isinstance(e, ast.Name) and e.id in elem_locals)
+
+        tests = []
+        for x in ast.walk(fn):
+            if isinstance(x, (ast.If, ast.While, ast.IfExp)):
+                tests.append(x.test)
+            elif isinstance(x, ast.comprehension):
+                tests += x.ifs
+            elif isinstance(x, ast.Assert):
+                tests.append(x.test)
+        atoms = []
+        for t in tests:
+            stack = [t]
+            while stack:
+                e = stack.pop()
+                if isinstance(e, ast.BoolOp):
+                    stack += e.values
+                elif isinstance(e, ast.UnaryOp) and isinstance(e.op, ast.Not):
+                    stack.append(e.operand)
+                else:
+                    atoms.append(e)
+        for a in atoms:
+            if is_elem(a):
+                n += 1
+                rep.add(rid, f"{mname}:truth value of {unparse(a)[:40]}", False,
+                        f"`{unparse(a)}` is an Element (or None): an Element without child elements is *falsy*, so "
+                        f"`<defval>1e-9</defval>` counts as absent; presence must be tested with `is not None`",
+                        f"{ci.mod.rel}:{a.lineno}")
+        # positive instances: explicit None tests on find results
+        for x in ast.walk(fn):
+            if isinstance(x, ast.Compare) and len(x.ops) == 1 and isinstance(x.ops[0], (ast.Is, ast.IsNot)) and is_elem(x.left):
+                n += 1
+                rep.add(rid, f"{mname}:{unparse(x)[:50]}", True, "presence tested against None", f"{ci.mod.rel}:{x.lineno}",
+                        nontrivial=False)
+    if n < 5:
+        raise AnalysisError(f"{rep.prop}/{rid}: {n} presence tests of XML elements found, >= 5 expected")
+
+
 def rule_unreadable_xml(ctx, rep: Report, rid="Q3"):
     prog = ctx.prog
     ci = prog.cls("XMLDocParser")
